@@ -132,6 +132,31 @@ CHECKS = {
         note="the whole command-line entry is driven in-process per option set; trusted base mc/evm_ref.py",
         technique="exhaustive enumeration of single (and bounded double) tamperings of a history artefact, each "
                   "replayed on the implementation"),
+    "C12": dict(
+        level="model_checking", engine="E8+E1", ref="DESIGN.md section 4 C12",
+        text="explicit-state search over processing histories: 14 probe blocks (one per group of module globals), a "
+             "transition processes one probe (specification + optimize + compare) under a fixed option set, a state is "
+             "the canonical snapshot of every module-level variable of the tool (hashed for deduplication); BFS to depth "
+             "1 (quick) / 2 (thorough) with every history replayed in a freshly forked process, plus one de Bruijn walk "
+             "per option set in which every word of length 2 (quick) / 3 (thorough) over the probes occurs as "
+             "consecutive transitions; invariant on every transition: result == result in a fresh process; plus "
+             "position independence of a block inside a contract",
+        note="result = specifications, sub-block list, emitted items, log entry, statistics without timings; "
+             "global_params.paths (private scratch location) is excluded from the state; sound deduplication because "
+             "the code is a deterministic function of its globals, arguments and (wiped) scratch files",
+        technique="explicit-state BFS over operation histories with canonical state hashing, transitions executed on "
+                  "the real implementation"),
+    "C13": dict(
+        level="model_checking", engine="E8", ref="DESIGN.md section 4 C13",
+        text="every set iteration in 11 modules of the tool is routed through a scheduler (the name `set` is rebound to "
+             "a controlled subclass in the harness process); for each input the default run records the iteration "
+             "points, then every point is deviated (all permutations for small sets, reversal/rotation/adjacent "
+             "transpositions above; pairs of points in the thorough tier) and the complete result must be unchanged; "
+             "the default schedule is replayed and must reproduce itself; the same inputs are also processed in fresh "
+             "interpreters under different PYTHONHASHSEED / scratch / cwd and must give identical digests",
+        note="set literals/comprehensions are only covered by the hash-seed runs (finitely many seeds, stated); machine "
+             "load is an assumption",
+        technique="exhaustive deviation-bounded exploration of iteration-order schedules on the real implementation"),
 }
 
 NOT_YET = "check not built yet in this session (planned in DESIGN.md section 4); nothing is claimed for it"
